@@ -447,6 +447,110 @@ def run_sched_case(case, twin, repo):
 
 
 # ---------------------------------------------------------------------------------------------------------
+# long PASHA run: many trials, criss-crossing learning curves (PASHA's epsilon estimate walks over SETS of trial-id
+# strings; which pairs it sees, and in which order, must not influence decisions)
+# ---------------------------------------------------------------------------------------------------------
+def pasha_metric(pl):
+    import math
+    ms = float(pl.get("mseed", 0))
+    if pl["profile"] == "crisscross":
+        def f(t, e):
+            t = t + ms
+            return (0.5 + 0.12 * math.sin(1.7 * t) + 0.1 * math.sin(2.3 * t + 1.3 * e)
+                    + 0.06 * math.sin(0.37 * t * e + ms) + 0.05 / e)
+        return f
+    # "bimodal": every third trial is good; good trials form a large cluster A and a small cluster B (one in
+    # b_period), so that roughly 10% of the pairs have a large gap and the 90% quantile of the gaps (= epsilon)
+    # is sensitive to WHICH pairs are looked at; the ranking of any two trials at epoch 2 is the opposite of the
+    # one at epochs 1 and 3 (every pair counts as a rank swap); from trial d_start on some good trials are
+    # mediocre at epoch 1 and best from epoch 3 on (a displacement of about the cluster gap between rungs)
+    bp, ds, la, lb = pl.get("b_period", 16), pl.get("d_start", 165), pl.get("level_a", 0.1), pl.get("level_b", 0.3)
+
+    def g(t, e):
+        tiny = 0.01 * math.sin(12.9898 * t + ms)
+        displaced = False
+        if t % 3 == 0:
+            k = t // 3
+            if t >= ds and k % 10 == 3:
+                level, displaced = (la + lb) / 2.0, True
+            elif k % bp == 5:
+                level = lb
+            else:
+                level = la
+        else:
+            level = 0.8 + 0.1 * math.sin(78.233 * t + ms)
+        level += tiny
+        if e == 2:
+            return 1.0 - level
+        if e >= 3 and displaced:
+            return la / 2.0 + tiny
+        return level
+    return g
+
+
+def run_pasha_long(pl, twin, repo):
+    from syne_tune.backend.trial_status import Trial
+    from syne_tune.config_space import uniform, randint
+    from syne_tune.optimizer.schedulers.hyperband import HyperbandScheduler
+    pert = pyrandom.Random("%s-%s" % (pl["perturb_seed"], twin))
+    metric = pasha_metric(pl)
+    rec = Recorder()
+    max_t = pl["max_t"]
+    trace, err = [], None
+    try:
+        with contextlib.redirect_stdout(io.StringIO()):
+            perturb(pert)
+            s = rec.call("__init__", HyperbandScheduler,
+                         {"lr": uniform(0.0, 1.0), "width": randint(1, 1000), "epochs": max_t}, type="pasha",
+                         searcher="random", metric="error", mode="min", resource_attr="epoch",
+                         max_resource_attr="epochs", grace_period=pl["grace"], reduction_factor=pl["rf"],
+                         random_seed=pl["random_seed"], search_options={"debug_log": False})
+            tk = make_time_keeper()
+            tk.start_of_time()
+            s.set_time_keeper(tk)
+            trials, nxt, workers, n = {}, {}, [None] * pl["workers"], 0
+            for ev_i in range(pl["n_events"]):
+                if ev_i % 7 == 0:
+                    perturb(pert)
+                w = ev_i % len(workers)
+                tid = workers[w]
+                if tid is None:
+                    sg = rec.call("suggest", s.suggest, n)
+                    if sg is None:
+                        trace.append(["suggest", n, None])
+                        break
+                    if sg.spawn_new_trial_id:
+                        tid = n
+                        n += 1
+                        trials[tid] = Trial(tid, dict(sg.config), T0)
+                        nxt[tid] = 1
+                        rec.call("on_trial_add", s.on_trial_add, trials[tid])
+                        trace.append(["start", tid, canon(sg.config)])
+                    else:
+                        tid = sg.checkpoint_trial_id
+                        trace.append(["resume", tid])
+                    workers[w] = tid
+                else:
+                    e = nxt[tid]
+                    res = {"epoch": e, "error": metric(tid, e)}
+                    d = rec.call("on_trial_result", s.on_trial_result, trials[tid], res)
+                    nxt[tid] = e + 1
+                    trace.append(["result", tid, e, str(d)])
+                    if e >= max_t:
+                        rec.call("on_trial_complete", s.on_trial_complete, trials[tid], res)
+                        d = "STOP"
+                    elif d == "STOP":
+                        rec.call("on_trial_remove", s.on_trial_remove, trials[tid])
+                    elif d == "PAUSE":
+                        rec.call("on_trial_remove", s.on_trial_remove, trials[tid])
+                    if d != "CONTINUE":
+                        workers[w] = None
+    except Exception as e:
+        err = "%s: %s" % (type(e).__name__, str(e)[:200])
+    return dict(trace=trace, error=err, consumed=rec.consumed)
+
+
+# ---------------------------------------------------------------------------------------------------------
 # simulated experiment: real Tuner + SimulatorBackend over a synthetic tabular blackbox
 # ---------------------------------------------------------------------------------------------------------
 def run_sim_case(case, twin, repo):
@@ -548,6 +652,8 @@ def main():
             signal.alarm(limit)
             if case["kind"] == "sim":
                 results.append(run_sim_case(case["sim"], job["twin"], repo))
+            elif case["kind"] == "pasha_long":
+                results.append(run_pasha_long(case["pl"], job["twin"], repo))
             else:
                 results.append(run_sched_case(case, job["twin"], repo))
         except CaseTimeout:
